@@ -961,14 +961,24 @@ func (e *env) icmpTap(ev tunnelmesh.FrameEvent) {
 }
 
 func (e *env) icmpTunnel() {
-	a := e.mesh.Nodes[0].Agent
+	a, d := e.mesh.Nodes[0].Agent, e.mesh.Nodes[3].Agent
 	m, k0 := e.rec.mark(), e.keyCount()
 	e.imu.Lock()
 	e.icmpKey, e.icmpGot = nil, nil
 	e.imu.Unlock()
 	ctx, cancel := context.WithTimeout(context.Background(), 30*time.Second)
 	defer cancel()
-	sid, err := a.CreateICMPSession(ctx, net.IPv4(127, 0, 0, 1))
+	// two ingress paths: the SOCKS5 ICMP association (CreateICMPSession /
+	// RelayICMPEcho) and the WebSocket ping session (OpenICMPSession)
+	ws := e.c.Rand.Chance(1, 2)
+	var sid uint64
+	var sess *health.ICMPSession
+	var err error
+	if ws {
+		sess, err = a.OpenICMPSession(ctx, d.ID(), net.IPv4(127, 0, 0, 1))
+	} else {
+		sid, err = a.CreateICMPSession(ctx, net.IPv4(127, 0, 0, 1))
+	}
 	if err != nil {
 		e.c.Fail("tunnel-open-failed", "icmp: "+err.Error(), nil)
 		return
@@ -984,13 +994,33 @@ func (e *env) icmpTunnel() {
 		}
 		reply := func(ev tunnelmesh.FrameEvent) bool { return ev.From == 1 && ev.To == 0 && ev.Type == fICMPEcho }
 		seen := e.rec.count(m, reply)
-		if err := a.RelayICMPEcho(sid, 7, uint16(i), b); err != nil {
+		if ws {
+			select {
+			case sess.SendEcho <- &health.ICMPEchoRequest{Identifier: 7, Sequence: uint16(i), Payload: b}:
+			case <-time.After(8 * time.Second):
+				err = fmt.Errorf("send channel blocked")
+			}
+		} else {
+			err = a.RelayICMPEcho(sid, 7, uint16(i), b)
+		}
+		if err != nil {
 			e.c.Fail("write-failed:icmp", err.Error(), nil)
 			break
 		}
 		if tunnelmesh.WaitFor(8*time.Second, func() bool { return e.rec.count(m, reply) > seen }) != nil {
 			e.c.Fail("bytes-not-delivered:icmp", "no echo reply reached the ingress", nil)
 			break
+		}
+		if ws {
+			// the ingress application gets the reply in the clear
+			select {
+			case r := <-sess.ReceiveEcho:
+				if r.Error != "" || !bytes.Equal(r.Payload, reverse(b)) {
+					e.c.Fail("bytes-not-delivered:icmp", fmt.Sprintf("ping session got a wrong reply (%d bytes, error %q)", len(r.Payload), r.Error), nil)
+				}
+			case <-time.After(8 * time.Second):
+				e.c.Fail("bytes-not-delivered:icmp", "the ping session did not deliver the reply", nil)
+			}
 		}
 		upApp = append(upApp, b...)
 		downApp = append(downApp, reverse(b)...)
@@ -1003,7 +1033,13 @@ func (e *env) icmpTunnel() {
 		e.c.Fail("bytes-not-delivered:icmp", fmt.Sprintf("exit end recovered %d bytes, %d sent", len(got), len(upApp)), nil)
 	}
 	o := e.evaluate("icmp", ops, m, k0, canaries, upApp, downApp, true)
-	a.CloseICMPSession(sid)
+	if ws {
+		sess.Close()
+		e.c.Count("icmp-ingress:websocket-session")
+	} else {
+		a.CloseICMPSession(sid)
+		e.c.Count("icmp-ingress:socks5-association")
+	}
 	e.settle()
 	e.record(o)
 	e.rec.trim()
